@@ -281,6 +281,15 @@ def comparator_key_fields(cb):
             if l is None or r is None:
                 return None
             return l[0] or r[0], l[1] | r[1]
+        if t[0] == 'call' and t[1].rsplit('::', 1)[-1] == 'then_with' and 'Ordering' in t[1] and len(t[2]) == 2 and t[2][1][0] == 'closure':
+            # a.cmp(b).then_with(|| c.cmp(d)): the closure's (single) answer is the tie-breaker
+            alts = Walker(cb, SORT_FACTS, max_paths=4).closure_alternatives(t[2][1], [])
+            if not alts or len(alts) != 1 or alts[0][0]:
+                return None
+            l, r = one(t[2][0]), one(alts[0][2])
+            if l is None or r is None:
+                return None
+            return l[0] or r[0], l[1] | r[1]
         return None
     return one(ps[0].end[1])
 
